@@ -221,6 +221,8 @@ class DriverCFG:
             return pre + ['Ret %s %s %s' % ('true' if from_solver else 'false', 'true' if unscaled else 'false', flag)]
         if isinstance(st, ast.Raise):
             return ['Raise']
+        if isinstance(st, ast.Break):
+            return ['Break']
         raise ExtractError('%s: unrecognised statement %s at line %d' % (self.fn.name, type(st).__name__, st.lineno))
 
     def emit(self):
